@@ -5,6 +5,7 @@ eval(expr, st) -> SV     (single-valued; exceptional sub-paths are parked in eng
                           multi-path inlined callees are merged with ite)
 """
 import ast
+import os
 import z3
 
 from .core import *  # noqa: F401,F403
@@ -746,12 +747,48 @@ class Engine:
         return mp
 
     # ------------------------------------------------------------------ loops
+    def static_ordinal(self, node):
+        """Position of a loop among the for/while statements of the function being executed, in source order (loops of
+        nested functions and classes are not counted: they are numbered within their own function).  Independent of the
+        order in which paths are explored and of how many paths reach the loop."""
+        fn = self.cur_fn.node if self.cur_fn is not None else None
+        dyn = self.loop_counter
+        if fn is None:
+            return dyn
+        memo = self.__dict__.setdefault("_ord_memo", {})
+        tab = memo.get(id(fn))
+        if tab is None:
+            loops = []
+
+            def walk(n):
+                for ch in ast.iter_child_nodes(n):
+                    if isinstance(ch, (ast.FunctionDef, ast.AsyncFunctionDef, ast.Lambda, ast.ClassDef)):
+                        continue
+                    if isinstance(ch, (ast.For, ast.While)):
+                        loops.append(ch)
+                    walk(ch)
+            walk(fn)
+            loops.sort(key=lambda n: (n.lineno, n.col_offset))
+            tab = memo[id(fn)] = ({id(n): i for i, n in enumerate(loops)}, fn, loops)     # keep fn alive: ids stay unique
+        o = tab[0].get(id(node))
+        if o is None:
+            return dyn
+        if os.environ.get("VERIF_DEBUG_ORD") and o != dyn:
+            print("ORDINAL-MISMATCH %s line %d static %d dynamic %d spec-static %s spec-dynamic %s" % (
+                self.cur_target, node.lineno, o, dyn, self.reg.find_loop(self.cur_target, o) is not None,
+                self.reg.find_loop(self.cur_target, dyn) is not None))
+        return o
+
     def exec_for(self, node, st):
         if node.orelse:
             raise Unsupported("for-else")
         it = self.eval(node.iter, st)
-        ordinal = self.loop_counter
+        ordinal = self.static_ordinal(node)
         self.loop_counter += 1
+        # what the loop iterates over and which loops of this function ran before it (for invariants that are stated
+        # per iterated collection rather than per loop position)
+        before = getattr(self, "_ord_memo", {}).get(id(self.cur_fn.node), ({}, None, []))[2][:ordinal] if self.cur_fn is not None else []
+        self.loop_iter_info = (ast.unparse(node.iter), tuple(ast.unparse(l.iter) for l in before if isinstance(l, ast.For)))
         inv = self.reg.find_loop(self.cur_target, ordinal)
         if inv is not None and self._small_concrete(it, st) == []:
             return [(st, None)]         # iteration over a literally empty collection: nothing to do
@@ -1000,7 +1037,7 @@ class Engine:
         return inv.run(self, node, it, st, ordinal)
 
     def exec_while(self, node, st):
-        ordinal = self.loop_counter
+        ordinal = self.static_ordinal(node)
         self.loop_counter += 1
         inv = self.reg.find_loop(self.cur_target, ordinal)
         if inv is None:
